@@ -12,4 +12,4 @@ MIN_OBLIGATIONS = 4
 
 
 def build(src, tier):
-    return [(T.world_for(src, tier), [T.t_per_instance()])]
+    return [(T.world_for(src, tier), [T.t_per_instance(), T.t_augassign_rhs_read()])]
